@@ -805,6 +805,9 @@ func isRangeFuncProtocol(cond ssa.Value) bool {
 		if _, isC := constInt(pair[1]); !isC {
 			continue
 		}
+		if ph, isPhi := pair[0].(*ssa.Phi); isPhi && strings.HasPrefix(ph.Comment, "jump$") {
+			return true // the state cell after it was promoted to a register
+		}
 		ld, isLoad := pair[0].(*ssa.UnOp)
 		if !isLoad || ld.Op != token.MUL {
 			continue
